@@ -16,7 +16,7 @@ PROP = dict(
          "alignment is measured on two fixed band-limited signals (exact for symmetric filters)",
     rule="a 'chain' case is one (class, L, M, h): every input letter x framing is processed by a fresh object and the set of integer "
          "phases t (|t| <= len(h)+L+M) with |y[i]-w[iM+t]| <= 1e-12 max|w| is intersected over all runs (empty = violation); each call must "
-         "return len*L/M samples; 'chain.reject': every frame length 0..2M+1 (non-multiples of M must throw); 'chain.reject.state': one object per (decimating class or FIRResampler mode with M > 1, L, M, h in {default, dense symmetric of length 2, max+1, 2max+3, 4max+1; audio: default, max+1}) is fed good frame, rejected frame (every non-multiple length <= 2M+1 in turn, must throw), good frame, ...; the good frames' outputs must be bit-identical to a fresh object fed the good frames only (a rejected call leaves the converter unchanged); 'chain.long': ONE frame of 70000 / 140000 input samples (rounded up to a multiple of M) through FIRRateConverter 3/2, 2/3, 5/7, 3/4, 7/5, 16/15, FIRInterpolator(3), FIRDecimator(3), FIRResampler 3/2, 2/3, 3/1, 1/3 with the default and a dense symmetric h: every output compared with the chain evaluated directly in long double (phase from the first 256 outputs) and with the same stream fed in frames of 4096*M (quick: rate converter 3/2, 2/3, interpolator, decimator, FIRResampler 3/2 at 70000, default h); 'resample.band': default designs (resample(x,p,q), resample(x,p,q,12,9.0), FIRResampler(L,M), FIRRateConverter(L,M)/FIRDecimator(M)) for L/M in {2/3, 2/5, 3/7, 3/8, 5/16, 160/441, 147/320, 1/2, 1/3, 1/8}: a tone at 0.4 of the new Nyquist rate must come out with amplitude 1 +- 0.05 and no other content above the stop-band bound, a tone at 0.5*(1+L/M) of the old Nyquist rate must come out with rms <= the stop-band bound; 'resample.rates': unreduced sample-rate pairs {48000/44100, 44100/48000, 96000/44100, 16000/48000, 48000/16000, 22050/8000} x input lengths {1000, 44100, 44739, 44740, 88200, 100000} (both tiers; thorough adds 192000/44100, 44100/192000, 32000/48000, 11025/48000, 2000000/3000000, 65536/65535 (inputs of 1 and 1000 samples), the reduced 441/160 with 4870000 samples (ceil(len/q')*q'*p' >= 2^31) and lengths 1, 22369, 22370, 32768, 65536, 131072, 200000) through resample(x,p,q), resample(x,p,q,8,7.0), resample(x,p,q,h) with a designed and a dense symmetric h: output length p'*ceil(len/q') and samples equal (1e-12 max|y|) to the call with the reduced ratio; FIRResampler(P,Q) fed one frame of floor(len/q')*q' samples against FIRResampler(p',q'); 'getters': next_size / "
+         "return len*L/M samples; 'chain.reject': every frame length 0..2M+1 (non-multiples of M must throw); 'chain.reject.state': one object per (decimating class or FIRResampler mode with M > 1, L, M, h in {default, dense symmetric of length 2, max+1, 2max+3, 4max+1; audio: default, max+1}) is fed good frame, rejected frame (every non-multiple length <= 2M+1 in turn, must throw), good frame, ...; the good frames' outputs must be bit-identical to a fresh object fed the good frames only (a rejected call leaves the converter unchanged); 'chain.long': ONE frame of 70000 / 140000 input samples (rounded up to a multiple of M) through FIRRateConverter 3/2, 2/3, 5/7, 3/4, 7/5, 16/15, FIRInterpolator(3), FIRDecimator(3), FIRResampler 3/2, 2/3, 3/1, 1/3 with the default and a dense symmetric h: every output compared with the chain evaluated directly in long double (phase from the first 256 outputs) and with the same stream fed in frames of 4096*M (quick: rate converter 3/2, 2/3, interpolator, decimator, FIRResampler 3/2 at 70000, default h); 'resample.band': default designs (resample(x,p,q), resample(x,p,q,12,9.0), FIRResampler(L,M), FIRRateConverter(L,M)/FIRDecimator(M)) for L/M in {2/3, 2/5, 3/7, 3/8, 5/16, 160/441, 147/320, 1/2, 1/3, 1/8}: a tone at 0.4 of the new Nyquist rate must come out with amplitude 1 +- 0.05 and no other content above the stop-band bound, a tone at 0.5*(1+L/M) of the old Nyquist rate must come out with rms <= the stop-band bound; 'resample.rates': unreduced sample-rate pairs {48000/44100, 44100/48000, 96000/44100, 16000/48000, 48000/16000, 22050/8000} x input lengths {1000, 44100, 44739, 44740, 88200, 100000} (both tiers; thorough adds 192000/44100, 44100/192000, 32000/48000, 11025/48000, 2000000/3000000, 65536/65535 (inputs of 1 and 1000 samples), the reduced 441/160 with 4870000 samples (ceil(len/q')*q'*p' >= 2^31) and lengths 1, 22369, 22370, 32768, 65536, 131072, 200000) through resample(x,p,q), resample(x,p,q,8,7.0), resample(x,p,q,h) with a designed and a dense symmetric h: output length p'*ceil(len/q') and samples equal (1e-12 max|y|) to the call with the reduced ratio; FIRResampler(P,Q) fed one frame of floor(len/q')*q' samples against FIRResampler(p',q'); 'chain.scale': every configuration of the box (default h, dense symmetric h of max+1 and 4max+1 taps; audio ratios default h) with an LCG record of >= 12 M samples fed in frames of M, 2M and the mixed patterns (M,3M,2M), (4M,M,M,2M): the record multiplied by 2^-110, 2^-300, 2^-600, 2^+300 must give the unit-scale output times the same power of two (1e-12 max|y|, and bit for bit); 'getters': next_size / "
          "prev_size for 0..4M, rates, simplify; 'resample.len'/'resample.h': every (p,q,n) resp. (p,q,len(h)) x input lengths "
          "{1,q-1,q,q+1,5q+3,200q}; 'resample.align': every (p,q,n), p != q. Non-trivial = configuration with len(h) >= 2 and L*M > 1, "
          "M > 1 (reject/getters), p != q (resample)",
